@@ -245,7 +245,7 @@ type verifC11Checker struct {
 }
 
 func (ck *verifC11Checker) mismatch(sig string, in []byte, want, got any, note string) {
-	ck.res.Mismatch(verifkit.Mismatch{Beh: map[string]any{"input_hex": fmt.Sprintf("%x", in), "input_quoted": strconv.Quote(string(in))},
+	ck.res.Mismatch(verifkit.Mismatch{Beh: map[string]any{"input_hex": fmt.Sprintf("%x", in), "input_quoted": strconv.QuoteToASCII(string(in))},
 		Want: want, Got: got, Sig: sig, Note: note})
 }
 
@@ -256,7 +256,7 @@ func (ck *verifC11Checker) laws(b []byte) []byte {
 	fb := ForceValidStringValueBytes(append([]byte(nil), in...))
 	ck.res.Steps += 2
 	if !bytes.Equal(f, fb) {
-		ck.mismatch("string-force-variants", in, strconv.Quote(string(f)), strconv.Quote(string(fb)), "ForceValidStringValue and ForceValidStringValueBytes differ")
+		ck.mismatch("string-force-variants", in, strconv.QuoteToASCII(string(f)), strconv.QuoteToASCII(string(fb)), "ForceValidStringValue and ForceValidStringValueBytes differ")
 	}
 	vs, vb := ValidStringValue(string(in)), ValidStringValueBytes(in)
 	if vs != vb {
@@ -267,17 +267,17 @@ func (ck *verifC11Checker) laws(b []byte) []byte {
 	}
 	// forcing yields a valid value
 	if !ValidStringValue(string(f)) || !ValidStringValueBytes(f) || !verifC11IndependentValid(f) {
-		ck.mismatch("string-force-not-valid", in, "valid", strconv.Quote(string(f)), "forced value is not a valid tag value")
+		ck.mismatch("string-force-not-valid", in, "valid", strconv.QuoteToASCII(string(f)), "forced value is not a valid tag value")
 	}
 	// ... that equals the input when the input was already valid
 	if (vs || verifC11IndependentValid(in)) && !bytes.Equal(f, in) {
-		ck.mismatch("string-valid-changed", in, strconv.Quote(string(in)), strconv.Quote(string(f)), "valid input was changed by forcing")
+		ck.mismatch("string-valid-changed", in, strconv.QuoteToASCII(string(in)), strconv.QuoteToASCII(string(f)), "valid input was changed by forcing")
 	}
 	// forcing is idempotent
 	f2 := []byte(ForceValidStringValue(string(f)))
 	f2b := ForceValidStringValueBytes(append([]byte(nil), f...))
 	if !bytes.Equal(f2, f) || !bytes.Equal(f2b, f) {
-		ck.mismatch("string-force-not-idempotent", in, strconv.Quote(string(f)), strconv.Quote(string(f2))+" / "+strconv.Quote(string(f2b)), "forcing twice differs from forcing once")
+		ck.mismatch("string-force-not-idempotent", in, strconv.QuoteToASCII(string(f)), strconv.QuoteToASCII(string(f2))+" / "+strconv.QuoteToASCII(string(f2b)), "forcing twice differs from forcing once")
 	}
 	// strict normalisation fails only on invalid UTF-8 and otherwise agrees with forcing
 	prefix := []byte("pfx=")
@@ -292,7 +292,7 @@ func (ck *verifC11Checker) laws(b []byte) []byte {
 	}
 	if err == nil {
 		if !bytes.HasPrefix(o, prefix) || !bytes.Equal(o[len(prefix):], f) {
-			ck.mismatch("string-strict-differs-from-force", in, strconv.Quote(string(f)), strconv.Quote(string(o)), "strict normalisation succeeded with a value different from forcing")
+			ck.mismatch("string-strict-differs-from-force", in, strconv.QuoteToASCII(string(f)), strconv.QuoteToASCII(string(o)), "strict normalisation succeeded with a value different from forcing")
 		}
 	}
 	return f
@@ -330,7 +330,7 @@ func (ck *verifC11Checker) stringCase(inToks, outToks, validFlag, strictFlag str
 		} else if exp, err := verifC11ExpectedBytes(pieces, out); err != nil {
 			return fmt.Errorf("case %q -> %q: %v", inToks, outToks, err)
 		} else if !bytes.Equal(exp, f) {
-			ck.mismatch("string-force-bytes", b, strconv.Quote(string(exp)), strconv.Quote(string(f)), "spec input "+inToks)
+			ck.mismatch("string-force-bytes", b, strconv.QuoteToASCII(string(exp)), strconv.QuoteToASCII(string(f)), "spec input "+inToks)
 		}
 		if got := ValidStringValueBytes(b); got != (validFlag == "V") {
 			ck.mismatch("string-valid-vs-spec", b, validFlag == "V", got, "spec input "+inToks)
@@ -460,7 +460,7 @@ func TestVerifC11(t *testing.T) {
 		b := verifC11RandomBytes(r2)
 		f := ck.laws(b)
 		if i < 3 {
-			res.Sample(map[string]any{"random_input": strconv.Quote(string(b)), "forced": strconv.Quote(string(f))})
+			res.Sample(map[string]any{"random_input": strconv.QuoteToASCII(string(b)), "forced": strconv.QuoteToASCII(string(f))})
 		}
 	}
 	res.Count("random_strings", nrand)
